@@ -350,6 +350,24 @@ func (env *specEnv) eval(e SExpr) (Val, types.Type) {
 	case SQuant:
 		return env.evalQuant(x), tBool
 	case SField:
+		// qualified identifier pkg.Name (constant or variable of an imported package)
+		if id, ok := x.X.(SIdent); ok && env.pkg != nil {
+			if _, _, isVal := env.lookup(id.Name); !isVal {
+				for _, imp := range env.pkg.Imports() {
+					if imp.Name() != id.Name {
+						continue
+					}
+					switch o := imp.Scope().Lookup(x.Name).(type) {
+					case *types.Const:
+						if v, ok := vc.constVal(o.Val(), o.Type()); ok {
+							return v, o.Type()
+						}
+					case *types.Var:
+						return vc.readGlobal(env.st, o), o.Type()
+					}
+				}
+			}
+		}
 		return env.evalField(x)
 	case SIndex:
 		return env.evalIndex(x)
